@@ -78,7 +78,7 @@ async def run_many(flavor, ctype, shape, n, retries, fault=None, h2_script=None,
         for o in sc.origins:
             o.h2_script = dict(h2_script)
     net = sc.net
-    net.op_budget = 50000
+    net.op_budget = 12000  # (a run needs < 3000; a request re-sent for ever ends here and is judged)
     info = {"fault_seq": None, "fault_call": None, "fault_phase": None}
     if fault is not None:
         net.faults[fault[0]] = fault[1]
